@@ -8,6 +8,7 @@ import (
 )
 
 type ReqSpec struct {
+	Scheme string // h2 :scheme ("" = https)
 	Tag    string
 	Method string
 	Path   string
@@ -96,7 +97,11 @@ func H2RequestFrames(enc *HEnc, stream uint32, r ReqSpec, pseudoOrder []string, 
 		case ":method":
 			fields = append(fields, [2]string{k, r.Method})
 		case ":scheme":
-			fields = append(fields, [2]string{k, "https"})
+			sch := r.Scheme
+			if sch == "" {
+				sch = "https"
+			}
+			fields = append(fields, [2]string{k, sch})
 		case ":authority":
 			fields = append(fields, [2]string{k, r.Host})
 		case ":path":
@@ -146,6 +151,8 @@ type FrontOpts struct {
 	Hello                  HelloOpts
 	Segment                bool
 	Sequential             bool // h2: await each request before the next
+	SchemeHTTPPct          int  // h2: percentage of requests sent with ":scheme: http" (legal over TLS)
+	FillCanonCachePct      int  // h2: percentage of connections whose first request carries 30 distinct uncommon header names
 }
 
 type ClientMeta struct {
@@ -183,10 +190,22 @@ func DrawFront(t *rapid.T, o FrontOpts) ([]*ClientPlan, []*ClientMeta) {
 			pre := append([]byte(ClientPreface), FramesBytes(meta.Preamble.Frames()...)...)
 			cp.Steps = append(cp.Steps, Step{Kind: "write", Pieces: [][]byte{pre}})
 			var ids []uint32
+			fillCache := o.FillCanonCachePct > 0 && drawBool(t, "fillcache", o.FillCanonCachePct)
 			for ri := 0; ri < nreq; ri++ {
 				r := ReqSpec{Tag: fmt.Sprintf("c%d-r%d", ci, ri), Method: "GET", Path: fmt.Sprintf("/p%d", ri), Host: fmt.Sprintf("h%d.verif.test", ci)}
 				if o.HeaderGen != nil {
 					r.Header = o.HeaderGen(t, "h2", ci, ri)
+				}
+				if o.SchemeHTTPPct > 0 && drawBool(t, "schemehttp", o.SchemeHTTPPct) {
+					r.Scheme = "http"
+				}
+				if ri == 0 && fillCache {
+					// fills the server's per-connection cache of canonical header names
+					var fill [][2]string
+					for k := 0; k < 30; k++ {
+						fill = append(fill, [2]string{fmt.Sprintf("x-fill-%d-%02d-uncommon", ci, k), "f"})
+					}
+					r.Header = append(fill, r.Header...)
 				}
 				meta.Reqs = append(meta.Reqs, r)
 				id := uint32(2*ri + 1)
@@ -213,4 +232,26 @@ func DrawFront(t *rapid.T, o FrontOpts) ([]*ClientPlan, []*ClientMeta) {
 		metas = append(metas, meta)
 	}
 	return cps, metas
+}
+
+// RebuildFrontSteps re-renders a client's steps after its request specs were edited.
+func RebuildFrontSteps(cp *ClientPlan, m *ClientMeta) {
+	steps := []Step{{Kind: "connect"}}
+	if m.Proto == "h2" {
+		enc := NewHEnc()
+		pre := append([]byte(ClientPreface), FramesBytes(m.Preamble.Frames()...)...)
+		steps = append(steps, Step{Kind: "write", Pieces: [][]byte{pre}})
+		var ids []uint32
+		for ri, r := range m.Reqs {
+			id := uint32(2*ri + 1)
+			ids = append(ids, id)
+			steps = append(steps, Step{Kind: "write", Pieces: [][]byte{FramesBytes(H2RequestFrames(enc, id, r, nil, nil, nil, nil)...)}, Tag: r.Tag})
+		}
+		steps = append(steps, Step{Kind: "h2await", Streams: ids})
+	} else {
+		for _, r := range m.Reqs {
+			steps = append(steps, Step{Kind: "h1req", Pieces: [][]byte{r.H1()}, Tag: r.Tag})
+		}
+	}
+	cp.Steps = append(steps, Step{Kind: "close"})
 }
